@@ -6,7 +6,13 @@ from engine.oracle.valid import SpecView, why_invalid
 
 
 class Ctx:
-    pass
+    def is_split(self, x):
+        """x lies between the two units of a surrogate pair (symbolic-friendly: compares with the
+        concrete list of such positions instead of indexing the token list with x)."""
+        for sp in self.splits:
+            if x == sp:
+                return True
+        return False
 
 
 _views = {}
@@ -30,6 +36,8 @@ def load(p):
     c.tok = doc_tokens(c.doc)
     c.size = len(c.tok)
     c.pm = PosModel(c.tok)
+    from engine.oracle.tokens import splits_surrogate
+    c.splits = [i for i in range(1, len(c.tok)) if splits_surrogate(c.tok, i)]
     c.inline_types = {n for n in c.V.nodes if c.V.is_inline(n)}
     c.noninclusive = {m for m, sp in c.V.marks.items() if sp.get("inclusive") is False}
     assert c.doc.content.size == c.size
